@@ -238,6 +238,8 @@ class Unit:
                     raise Maintenance('%s:%d: `%s` on a non-fn item' % (self.path, d.line, d.kind))
             if item:
                 item[0].ws = ''
+            if kind in ('struct', 'enum', 'type', 'const', 'static'):
+                item = X.widen_item_vis(item, kind)
             start = out.line
             out.tokens(item)
             out.raw('', ('unit', blk.line))
